@@ -354,6 +354,9 @@ where
 		tx_id_string = tx_id.to_string();
 	} else if let Some(tx_slate_id) = tx_slate_id {
 		tx_id_string = tx_slate_id.to_string();
+	} else {
+		// nothing names the transaction to cancel
+		return Err(Error::TransactionDoesntExist(tx_id_string));
 	}
 	let tx_vec = updater::retrieve_txs(
 		wallet,
